@@ -680,12 +680,15 @@ def build_cases(cfgs, r, n_per):
     return shapes, argts, cases
 
 
-def execute(shapes, argts, cases, noopt=False, per_tu=48, workers=8, compiler="g++"):
+def execute(shapes, argts, cases, noopt=False, per_tu=90, workers=8, compiler="g++"):
     """Compile the shapes (parallel, ASan+UBSan, EMBOSS_CHECK live), run every case on the
     real templates.  Returns one output line per case; a line starting with `CRASH`
     records a sanitizer report / tripped runtime check / crash on that case."""
-    index = {s: i for i, s in enumerate(shapes)}
-    tus = [shapes[i:i + per_tu] for i in range(0, len(shapes), per_tu)]
+    # balanced translation units: one round of `workers` parallel compiles where possible
+    n_tus = max(1, -(-len(shapes) // per_tu))
+    n_tus = -(-n_tus // workers) * workers if len(shapes) >= 4 * workers else n_tus
+    size = -(-len(shapes) // n_tus)
+    tus = [shapes[i:i + size] for i in range(0, len(shapes), size)]
     jobs = []
     for tu in tus:
         jobs.append(dict(src_text=cpp_source(tu, [argts[s] for s in tu]), name="scalar",
